@@ -36,6 +36,7 @@ def cases(tier, seed):
     n = 96 if tier == "quick" else 2500
     out = [{"sub": "circ", "i": i} for i in range(n)] + [{"sub": "malformed"}]
     # directed: every controllable gate name with 1 and 2 controls, noise keyed by that name, both channel kinds
+    out += [{"sub": "model_history", "i": i} for i in range(6 if tier == "quick" else 100)]
     for name in gen.CTRL_FIXED + gen.CTRL_ROT + ["CSWAP"]:
         for nc in (1, 2):
             out.append({"sub": "directed", "name": name, "nc": nc})
@@ -185,6 +186,52 @@ def run_directed(case, ctx):
             ctx.tab("noisy_gate_x_qubits_x_channel", f"{name}|{n}|{kd}")
 
 
+def run_model_history(case, ctx):
+    """One NoiseModel object used, extended and used again: every simulation must reflect the errors registered so far."""
+    import cirq
+    from tangelo.linq import get_backend, translate_circuit
+    from tangelo.linq.noisy_simulation import NoiseModel
+    rng, pr, s = case_rng(ctx.seed, "C19", "model_history", case["i"])
+    n = pr.randint(1, 3)
+    gates = gen.random_gates(pr, n, pr.randint(3, 8), max_controls=2, hostile=0.1)
+    names = sorted({g[0] for g in gates})
+    pr.shuffle(names)
+    circ = gen.to_circuit(gates, n_qubits=n)
+    nm = NoiseModel()
+    spec = {}
+    log = []
+    for step, gname in enumerate(names[:4]):
+        kind = pr.choice(["pauli", "depol"])
+        par = [pr.uniform(0, 0.3), pr.uniform(0, 0.3), pr.uniform(0, 0.3)] if kind == "pauli" else pr.uniform(0.05, 0.9)
+        nm.add_quantum_error(gname, kind, par)
+        spec.setdefault(gname, []).append((kind, par))
+        log.append([gname, kind, par])
+        if step >= 1 and pr.random() < 0.5:
+            # a second channel kind on an already noisy gate
+            g2 = pr.choice(list(spec))
+            have = {k for k, _ in spec[g2]}
+            k2 = "depol" if "depol" not in have else ("pauli" if "pauli" not in have else None)
+            if k2:
+                p2 = [0.1, 0.05, 0.2] if k2 == "pauli" else 0.35
+                nm.add_quantum_error(g2, k2, p2)
+                spec[g2].append((k2, p2))
+                log.append([g2, k2, p2])
+        rho = reference_rho(gates, n, spec)
+        if step % 2 == 0:
+            tc = translate_circuit(circ, "cirq", output_options={"noise_model": nm})
+            got = cirq.DensityMatrixSimulator(dtype=np.complex128).simulate(tc, qubit_order=cirq.LineQubit.range(n)).final_density_matrix
+        else:
+            be = get_backend("cirq", n_shots=10, noise_model=nm)
+            np.random.seed(s + step)
+            be.simulate(circ)
+            got = np.asarray(be._current_state)
+        d = refsim.dist(got, rho)
+        ctx.check("density_matrix_translated", d < 1e-7, "a noise model extended after its first use is not applied in full by a later simulation",
+                  lambda: {"gates": gates, "n_qubits": n, "errors_registered_so_far": log, "max_diff": d})
+    ctx.nontrivial(("model_history", gates, repr(log)))
+    ctx.sample({"sub": "model_history", "n_qubits": n, "errors": log})
+
+
 def run_malformed(case, ctx):
     from tangelo.linq import get_backend, Circuit, Gate
     from tangelo.linq.noisy_simulation import NoiseModel
@@ -233,4 +280,4 @@ def run_malformed(case, ctx):
 
 
 def run_case(case, ctx):
-    {"circ": run_circ, "malformed": run_malformed, "directed": run_directed}[case["sub"]](case, ctx)
+    {"circ": run_circ, "malformed": run_malformed, "directed": run_directed, "model_history": run_model_history}[case["sub"]](case, ctx)
